@@ -869,6 +869,8 @@ class Evaluator:
         if isinstance(node.op, ast.Not):
             return self.truth_not(v)
         if isinstance(node.op, ast.Invert):
+            if hasattr(v, "invert"):
+                return v.invert(self)
             if isinstance(v, bool):
                 # python ~True == -2 (truthy!) ; numba types it as boolean not
                 return IntInvert(v)
